@@ -299,6 +299,8 @@ pub fn make_params(sc: &Value, r: &mut StdRng) -> Parameters {
     let dof = sc["dof"].as_i64().unwrap() as i8;
     let mut p = robots::geometry(sc["geom"].as_str().unwrap(), r);
     p = robots::convention(p, sc["signs"].as_u64().unwrap() as usize, sc["offsets"].as_str().unwrap(), r);
+    // one robot in twelve is one of the eleven presets of the library, with the conventions it comes with
+    if r.gen_bool(0.08) { let all = robots::named_robots(); p = all[r.gen_range(0..all.len())].1; }
     p.dof = dof;
     if dof == 5 && r.gen_bool(0.5) { p.sign_corrections[5] = 0; }
     if dof == 5 && r.gen_bool(0.4) {
